@@ -59,7 +59,7 @@ PROPS["C19"] = dict(
 CU = "vectorizers/coo_utils.py::"
 _KERNELS = [WK + k for k in ("window_at_index", "flat_kernel", "harmonic_kernel", "geometric_kernel", "update_kernel", "timed_flat_kernel",
                               "timed_geometric_kernel", "fixed_window_radii")]
-_COO = [CU + k for k in ("coo_append", "coo_sum_duplicates", "merge_sum_duplicates", "merge_all_sum_duplicates", "coo_increase_mem")]
+_COO = [CU + k for k in ("coo_append", "coo_sum_duplicates", "merge_sum_duplicates", "merge_all_sum_duplicates", "coo_increase_mem")] + ["lemma::ksum"]
 _TECH = "contract-based deductive verification (pyvc VC generation, z3/cvc5) with bounded run-time reference checks for the clauses no contract decides"
 
 PROPS["C03"] = dict(
@@ -81,9 +81,15 @@ PROPS["C04"] = dict(
     level_text=("Deductive (unbounded, for every buffer size N >= 2 and every value of COO_QUICKSORT_LIMIT >= 1, the constant is symbolic): the accumulator's "
                 "representation invariant WF is preserved by coo_append / coo_sum_duplicates / merge_sum_duplicates / merge_all_sum_duplicates / "
                 "coo_increase_mem, every subscript and slice assignment is in range, two free slots remain after every append (so the next append "
-                "cannot overflow), growth keeps the shared fill index. ASSUMED: the run stack does not fill up (see assumptions). Bounded: conservation of "
-                "events (no event lost/duplicated/moved) over accumulator histories with tiny N and LIMIT, and API-level independence of n_threads / "
-                "coo_initial_memory / volume for the four vectorizers."),
+                "cannot overflow), growth keeps the shared fill index. CONTENT (the heart of the property, also unbounded): for an arbitrary key K, "
+                "W_K(c) = sum of val[p] over the stored entries with key[p] == K is preserved by sorting (coo_sum_duplicates), by every level of the "
+                "hierarchical merge (merge_sum_duplicates), by merge_all_sum_duplicates and by reallocation (coo_increase_mem), and coo_append satisfies "
+                "W_K(result) == W_K(before) + (val if key == K else 0) whatever sorting/merging/growth the call triggers; every stored entry keeps the "
+                "(row, col) cell its key stands for (KEYED). So no event is lost, duplicated or credited to another cell by the accumulator - in real "
+                "arithmetic (float32 summation order is the property's own caveat). The three keyed-sum lemmas used are proved by induction on every "
+                "run (split, shift) or stated with a Lean proof (permutation). ASSUMED: the run stack does not fill up (see assumptions). Bounded: "
+                "conservation of events over accumulator histories with tiny N and LIMIT through the real functions, and API-level independence of "
+                "n_threads / coo_initial_memory / volume for the four vectorizers."),
     level_note=("Trusted: pyvc, z3, numpy contracts (argsort is a sorting permutation, slice assignment, round). Assumption: depth[0] stays below "
                 "len(min) (true at the real LIMIT unless > LIMIT*N^2 events; false for artificially small LIMIT, observed)."),
     technique=_TECH, explanation="see level_text",
